@@ -83,7 +83,7 @@ pub mod oneshot {
 
 // Stream as the session sees it (the real Stream methods are verified in group `stream`; the
 // correspondence between these effect-log contracts and those proofs is stated in DESIGN.md 2.3)
-pub struct Stream { pub id: u32, pub ghost reader_chan: int, pub ghost writer_chan: int, pub ghost synack_chan: int }
+pub struct Stream { pub id: u32, pub ghost reader_chan: int, pub ghost writer_chan: int, pub ghost synack_chan: int, pub ghost closed_locally: bool }
 impl Stream {
     #[verifier::external_body]
     pub fn new(id: u32, reader: StreamReader, writer_tx: mpsc::UnboundedSender<(u32, Bytes)>) -> (r: (Self, oneshot::Receiver<Result<()>>))
@@ -99,6 +99,7 @@ impl Stream {
     { unimplemented!() }
     pub fn id(&self) -> (r: u32) ensures r == self.id { self.id }
     pub fn reader(&self) -> (r: ReaderCell) { ReaderCell { _p: () } }
+    #[verifier::external_body] pub fn is_closed(&self) -> (r: bool) ensures r == self.closed_locally { unimplemented!() }
 }
 // Lock discipline towards stream consumers: a stream's consumer holds the reader lock WHILE it is parked waiting for data
 // that only the session's receive path can deliver (or for the close that only the session performs).  Waiting for that
